@@ -152,3 +152,28 @@ class RandomModel:
 
     def seed(self, *a):
         pass
+
+
+
+class MathShim:
+    """``math`` for code that runs on proxies: everything is the real module, except ``isclose`` on symbolic numbers, which is
+    its own definition over the exact reals - |a-b| <= max(rel_tol*max(|a|,|b|), abs_tol) - instead of an Unsupported float()
+    conversion. (A change that replaces an exact comparison by math.isclose is then explored like any other branch.)"""
+
+    def __init__(self, real):
+        self._real = real
+
+    def __getattr__(self, name):
+        return getattr(self._real, name)
+
+    def isclose(self, a, b, rel_tol=1e-09, abs_tol=0.0):
+        if not (sym.is_sym(a) or sym.is_sym(b)):
+            return self._real.isclose(a, b, rel_tol=rel_tol, abs_tol=abs_tol)
+        import fractions
+        for x in (a, b):
+            if not sym.is_sym(x) and isinstance(x, float) and math.isinf(x):
+                return False           # a finite symbolic number is never close to an infinity
+        rt = fractions.Fraction(rel_tol).limit_denominator(10 ** 15)
+        at = fractions.Fraction(abs_tol).limit_denominator(10 ** 15)
+        d = abs(a - b)
+        return sym.Or(sym.eq(a, b), sym.le(d, sym.smax([abs(a) * rt, abs(b) * rt, at])))
